@@ -13,6 +13,10 @@ are re-evaluated on the overlay; a new violation or a new analysis error is repo
     split-tuple a, b = x, y  ->  a = x; b = y                     (y does not read a; plain names on the left)
     named-ret   return E  ->  result__ = E; return result__       (E not a bare name / constant)
     and-chain   a <= x <= b  ->  a <= x and x <= b                (x free of calls)
+    comp-loop   v = [E for x in S if c]  ->  v = []; for x in S: if c: v.append(E)     (one generator, a plain name on the left)
+    else-return if c: ..; return A  else: B  ->  if c: ..; return A  B                 (the else of a branch that always returns is hoisted)
+    dict-call   dict(a=x, b=y)  ->  {"a": x, "b": y}
+    chain-split v = a.f(..).g(..)  ->  chain__ = a.f(..); v = chain__.g(..)            (an assignment whose value is a method on a call)
 
     python3-vt tools/shape_probe.py swap-eq C07
 """
@@ -22,7 +26,7 @@ sys.path.insert(0, str(pathlib.Path(__file__).resolve().parent.parent))
 sys.path.insert(0, str(pathlib.Path(__file__).resolve().parent))
 from alpha_rename import consulted, ROOT, ALL      # noqa: E402
 
-MODES = ["swap-eq", "flip-if", "flip-ifexp", "kw-order", "split-tuple", "named-ret", "and-chain"]
+MODES = ["swap-eq", "flip-if", "flip-ifexp", "kw-order", "split-tuple", "named-ret", "and-chain", "comp-loop", "else-return", "dict-call", "chain-split"]
 
 
 def _pure(e):
@@ -69,6 +73,9 @@ class _T(ast.NodeTransformer):
 
     def visit_Call(self, n):
         n = self.generic_visit(n)
+        if self.mode == "dict-call" and isinstance(n.func, ast.Name) and n.func.id == "dict" and not n.args and n.keywords and all(k.arg for k in n.keywords):
+            self.n += 1
+            return ast.Dict(keys=[ast.Constant(value=k.arg) for k in n.keywords], values=[k.value for k in n.keywords])
         if self.mode == "kw-order" and len(n.keywords) >= 2 and all(k.arg for k in n.keywords) and all(_pure(k.value) for k in n.keywords):
             self.n += 1
             n.keywords = list(reversed(n.keywords))
@@ -87,6 +94,34 @@ class _T(ast.NodeTransformer):
                     for t, v in zip(st.targets[0].elts, st.value.elts):
                         out.append(ast.copy_location(ast.Assign(targets=[t], value=v), st))
                     continue
+            if self.mode == "comp-loop" and isinstance(st, ast.Assign) and len(st.targets) == 1 and isinstance(st.targets[0], ast.Name) and \
+                    isinstance(st.value, ast.ListComp) and len(st.value.generators) == 1 and not st.value.generators[0].is_async and \
+                    not any(isinstance(x, ast.Name) and x.id == st.targets[0].id for x in ast.walk(st.value)):
+                self.n += 1
+                g = st.value.generators[0]
+                app = ast.Expr(value=ast.Call(func=ast.Attribute(value=ast.Name(id=st.targets[0].id, ctx=ast.Load()), attr="append", ctx=ast.Load()),
+                                              args=[st.value.elt], keywords=[]))
+                body = [app]
+                for c in reversed(g.ifs):
+                    body = [ast.If(test=c, body=body, orelse=[])]
+                out.append(ast.copy_location(ast.Assign(targets=[st.targets[0]], value=ast.List(elts=[], ctx=ast.Load())), st))
+                out.append(ast.copy_location(ast.For(target=g.target, iter=g.iter, body=body, orelse=[]), st))
+                continue
+            if self.mode == "else-return" and isinstance(st, ast.If) and st.orelse and st.body and isinstance(st.body[-1], (ast.Return, ast.Raise, ast.Continue)) and \
+                    not (len(st.orelse) == 1 and isinstance(st.orelse[0], ast.If)):
+                self.n += 1
+                tail = st.orelse
+                st.orelse = []
+                out.append(st)
+                out.extend(tail)
+                continue
+            if self.mode == "chain-split" and isinstance(st, ast.Assign) and len(st.targets) == 1 and isinstance(st.value, ast.Call) and \
+                    isinstance(st.value.func, ast.Attribute) and isinstance(st.value.func.value, ast.Call) and self.n < 1:
+                self.n += 1
+                out.append(ast.copy_location(ast.Assign(targets=[ast.Name(id="chain__", ctx=ast.Store())], value=st.value.func.value), st))
+                st.value.func.value = ast.Name(id="chain__", ctx=ast.Load())
+                out.append(st)
+                continue
             if self.mode == "named-ret" and isinstance(st, ast.Return) and st.value is not None and not isinstance(st.value, (ast.Name, ast.Constant)):
                 self.n += 1
                 out.append(ast.copy_location(ast.Assign(targets=[ast.Name(id="result__", ctx=ast.Store())], value=st.value), st))
@@ -97,7 +132,7 @@ class _T(ast.NodeTransformer):
 
     def generic_visit(self, node):
         node = super().generic_visit(node)
-        if self.mode in ("split-tuple", "named-ret"):
+        if self.mode in ("split-tuple", "named-ret", "comp-loop", "else-return", "chain-split"):
             for fld in ("body", "orelse", "finalbody"):
                 v = getattr(node, fld, None)
                 if isinstance(v, list) and v and isinstance(v[0], ast.stmt):
